@@ -155,7 +155,7 @@ func regWrite(path string, b binding, data []byte) error {
 		d.Log = append(d.Log, fmt.Sprintf("%s=%d:refused", name, v))
 		return &fs.PathError{Op: "write", Path: path, Err: syscall.EINVAL}
 	case WriteIgnored:
-		d.Log = append(d.Log, fmt.Sprintf("%s=%d:ignored", name, v))
+		d.Log = append(d.Log, fmt.Sprintf("%s=%d", name, v))
 		return nil
 	}
 	d.Log = append(d.Log, fmt.Sprintf("%s=%d", name, v))
